@@ -39,7 +39,9 @@ EXPLANATION = (
     "keeps a memo on _dsl that _add_component/_delete_component do not invalidate; host-relative names (lambda blocks in "
     "ComponentLevel3._create_assign_lambda, net blocks in GenDAGPass, every function of pymtl3/dsl) are cut from a full "
     "name at the front by the host name's length, never by replace/strip/split. R-C14-collect also requires that descent "
-    "does not depend on the filter verdict and that BFS / worklist loops are not left early. R-C02-cache-scope (dependency): block "
+    "does not depend on the filter verdict and that BFS / worklist loops are not left early. R-C14-register: every "
+    "function that installs the setattr hook outside elaboration (add_value_port, _add_component) adds the attached object "
+    "/ its collected subtree to <top>._dsl.all_named_objects; elaboration drivers collect the registry after constructing. R-C02-cache-scope (dependency): block "
     "metadata is re-parsed / cached per defining class, so re-elaboration yields the same names. Decides: name <-> storage slot bijection (hence uniqueness and eval(repr(o)) is o) "
     "and metadata consistency for every hierarchy shape. Not decided: user construct code that stores one object under "
     "two names or uses non-identifier attribute names; determinism of user construct code.")
@@ -2053,6 +2055,157 @@ def rule_query(repo):
     return r
 
 
+# ---------------------------------------------------------------------------
+REGISTRY = 'all_named_objects'
+
+
+def _derived_from(fa, v, X):
+    """is the value v the object X itself, a display containing it, or the result of collecting X's subtree"""
+    if same(v, X):
+        return True
+    if isinstance(v, (ast.Set, ast.List, ast.Tuple)) and any(same(e, X) for e in v.elts):
+        return True
+    if isinstance(v, ast.BinOp):
+        return _derived_from(fa, v.left, X) or _derived_from(fa, v.right, X)
+    d = fa.d(v)
+    if d is None:
+        return False
+    if d.kind == 'unpack':
+        return _derived_from(fa, d.expr, X)
+    if d.kind == 'fresh' and isinstance(d.expr, (ast.Set, ast.List)):
+        return any(same(e, X) for e in d.expr.elts)
+    if d.kind in ('call', 'expr') and d.expr is not None:
+        for n in ast.walk(d.expr):
+            if isinstance(n, ast.Call) and isinstance(n.func, ast.Attribute) and n.func.attr.startswith('_collect_all') \
+                    and same(n.func.value, X):
+                return True
+    return False
+
+
+def _tables_receiving(fa, p, X):
+    """design-wide tables `<top>._dsl.all_*` that receive X (or its collected subtree) on path p"""
+    out = set()
+    for e in p.events:
+        if e.kind == 'call' and e.bound is None and isinstance(e.call.func, ast.Attribute) \
+                and e.call.func.attr in ('add', 'update') and len(e.call.args) == 1:
+            t = e.call.func.value
+            if isinstance(t, ast.Attribute) and t.attr.startswith('all_') and isinstance(t.value, ast.Attribute) \
+                    and t.value.attr == '_dsl' and _derived_from(fa, e.call.args[0], X):
+                out.add(t.attr)
+        elif e.kind == 'aug' and e.attr is not None and e.attr.startswith('all_') and isinstance(e.obj, ast.Attribute) \
+                and e.obj.attr == '_dsl' and isinstance(e.node.op, ast.BitOr) and _derived_from(fa, e.value, X):
+            out.add(e.attr)
+        elif e.kind == 'attr' and e.attr.startswith('all_') and isinstance(e.obj, ast.Attribute) and e.obj.attr == '_dsl' \
+                and _derived_from(fa, e.value, X):
+            out.add(e.attr)
+    return out
+
+
+def rule_register(repo):
+    r = RuleResult('R-C14-register', "every API that attaches named objects to an elaborated design (setattr hook installed "
+                                     "outside elaboration) registers them in the design-wide table the name queries enumerate "
+                                     "(all_named_objects), as elaboration's collection does")
+    adders = []
+    for rel in repo.py_files('pymtl3/dsl'):
+        if '__setattr_for_elaborate__' not in repo.src(rel):
+            continue
+        m = repo.mod(rel)
+        for f in _functions(m.tree):
+            inst = [n for n in walk_no_nested(f) if isinstance(n, ast.Assign) and norm(n.value).endswith('__setattr_for_elaborate__')
+                    and any(isinstance(t, ast.Attribute) and t.attr == '__setattr__' for t in n.targets)]
+            if inst:
+                adders.append((m, f, inst))
+    if len(adders) < 3:
+        raise AnalysisError(f"anchor vanished: functions that install the setattr hook ({len(adders)} found)")
+    for m, f, inst in adders:
+        q = qualname(f)
+        ex = SymExec(f, max_paths=3000, focus=inst)
+        paths = [p for p in ex.run() if p.status != 'raise']
+
+        class _FA:       # the few members the helpers use
+            pass
+        fa = _FA()
+        fa.ex, fa.func, fa.qual, fa.mod = ex, f, q, m
+        fa.me = f.args.args[0].arg if f.args.args else None
+        fa.d = ex.def_of
+        is_elab = any(isinstance(n, ast.Call) and isinstance(n.func, ast.Attribute) and n.func.attr == '_construct'
+                      and norm(n.func.value) == fa.me for n in walk_no_nested(f))
+        per = {}
+        for p in paths:
+            hooked = False
+            for e in p.events:
+                if e.kind == 'attr' and e.attr == '__setattr__' and norm(e.value).endswith('__setattr_for_elaborate__'):
+                    hooked = True
+                elif e.kind == 'del' and e.attr == '__setattr__':
+                    hooked = False
+                elif hooked and e.kind == 'call' and e.bound is None:
+                    X = None
+                    sl = _setattr_like(fa, e.call)
+                    if sl is not None:
+                        X = sl[2]
+                    elif isinstance(e.call.func, ast.Attribute) and e.call.func.attr == '_construct' and not e.call.args:
+                        X = e.call.func.value
+                    if X is None:
+                        continue
+                    r.evaluations += 1
+                    cons = pretty(norm(e.node))
+                    msgs = per.setdefault((cons, e.node.lineno), set())
+                    if is_elab and norm(X) == fa.me:
+                        continue          # elaboration of the top itself: registration is the driver's job (checked below)
+                    tabs = _tables_receiving(fa, p, X)
+                    if REGISTRY not in tabs:
+                        also = f" (it is added to {', '.join(sorted(tabs))})" if tabs else ''
+                        msgs.add(f"`{pretty(X)}` is attached to the elaborated design and named by the setattr hook but never "
+                                 f"added to <top>._dsl.{REGISTRY}{also}: get_all_object_filter / name queries do not list it, "
+                                 f"the set of names differs from a fresh elaboration of the same design")
+        for (cons, line), msgs in sorted(per.items()):
+            for m_ in sorted(msgs):
+                r.bad(m, q, cons, m_, line)
+            if not msgs:
+                r.ok(m, q, f"{cons} :: registered in {REGISTRY}" if not is_elab else f"{cons} :: elaboration of the top")
+    # elaboration drivers: constructing is followed by collecting the registry from the whole tree
+    drivers = 0
+    for rel in repo.py_files('pymtl3/dsl'):
+        if '_elaborate_construct' not in repo.src(rel):
+            continue
+        m = repo.mod(rel)
+        for f in _functions(m.tree):
+            calls = [n for st in f.body for n in walk_no_nested(st) if isinstance(n, ast.Call) and isinstance(n.func, ast.Attribute)]
+            if not any(c.func.attr == '_elaborate_construct' for c in calls):
+                continue
+            drivers += 1
+            r.evaluations += 1
+            fa = analyse(repo, rel, qualname(f))
+            okp = True
+            for p in fa.paths:
+                if p.status == 'raise':
+                    continue
+                names = [e.call.func.attr for e in p.events if e.kind == 'call' and isinstance(e.call.func, ast.Attribute)]
+                if '_elaborate_construct' in names:
+                    i = names.index('_elaborate_construct')
+                    if '_elaborate_collect_all_named_objects' not in names[i + 1:]:
+                        okp = False
+            if okp:
+                r.ok(m, qualname(f), "construct, then collect all named objects")
+            else:
+                r.bad(m, qualname(f), "construct, then collect all named objects", f"elaboration constructs the hierarchy but "
+                      f"does not (re)build {REGISTRY} afterwards: the design has names but no registry of them", f.lineno)
+    fa = analyse(repo, NAMED, 'NamedObject._elaborate_collect_all_named_objects')
+    r.evaluations += 1
+    good = any(e.kind == 'attr' and e.attr == REGISTRY and norm(e.obj) == f"{fa.me}._dsl" and isinstance(fa.d(e.value), object)
+               and fa.d(e.value) is not None and '_collect_all_single()' in norm(fa.d(e.value).expr)
+               and norm(fa.d(e.value).expr).startswith(fa.me + '.')
+               for p in fa.paths for e in p.events)
+    if good:
+        r.ok(fa.mod, fa.qual, f"{REGISTRY} = whole-tree collection without filter")
+    else:
+        r.bad(fa.mod, fa.qual, REGISTRY, f"{REGISTRY} is not the unfiltered collection of the whole tree", fa.func.lineno)
+    if drivers < 2:
+        raise AnalysisError("anchor vanished: elaboration drivers")
+    _floor(r, 6, repo)
+    return r
+
+
 # dependency: re-elaborating the same construction code must yield the same names -- lambda / update blocks are re-parsed
 # per elaboration and cached per defining class (decided by C02's cache-scope rule)
 from rules.c02 import rule_cache_scope      # noqa: E402
@@ -2072,7 +2225,7 @@ def rule_registry_after_replace(repo):
     return rule_sites(repo)
 
 
-RULES = [rule_name_storage, rule_cache, rule_meta, rule_reassign, rule_siblings, rule_api, rule_collect, rule_query,
+RULES = [rule_name_storage, rule_cache, rule_meta, rule_reassign, rule_siblings, rule_api, rule_collect, rule_query, rule_register,
          rule_cache_scope, rule_registry_after_replace, rule_sibling_links]
 
 # ---------------------------------------------------------------------------
@@ -2255,6 +2408,14 @@ MUTANTS = [
     _m('lambda-target-cut-too-far', 'pymtl3/dsl/ComponentLevel3.py', 'f"s{repr(o)[len(repr(s)):]}"', 'f"s.{repr(o)[len(repr(s))+2:]}"', 'R-C14-query'),
     _m('netblock-writer-by-replace', 'pymtl3/passes/sim/GenDAGPass.py', 'wstr = f"s.{repr(writer)[lca_len+1:]}"',
        "wstr = f\"s.{repr(writer).replace(repr(wr_lca), '')[1:]}\"", 'R-C14-query'),
+    _m('added-port-not-registered-by-name', COMP, "    top._dsl.all_signals.add( o )\n    top._dsl.all_named_objects.add( o )\n",
+       "    top._dsl.all_signals.add( o )\n", 'R-C14-register'),
+    _m('added-port-registered-in-wrong-table', COMP, "    top._dsl.all_named_objects.add( o )\n", "    top._dsl.all_components.add( o )\n",
+       'R-C14-register'),
+    _m('elaborate-without-registry', NAMED, "    s._elaborate_construct()\n    s._elaborate_collect_all_named_objects()\n",
+       "    s._elaborate_construct()\n", 'R-C14-register'),
+    _m('registry-collected-with-a-filter', NAMED, "    s._dsl.all_named_objects = s._collect_all_single()",
+       "    s._dsl.all_named_objects = s._collect_all_single( lambda x: x.is_signal() )", 'R-C14-register'),
     _m('level-getter-off-by-one', COMP, "      return s._dsl.level\n", "      return s._dsl.level + 1\n", 'R-C14-api'),
 ]
 
@@ -2304,6 +2465,9 @@ EQUIV = [
        "          elif isinstance( name, tuple ): # name = [1:3]\n            stack.append( obj )\n",
        "          if ( isinstance( name, str ) and name[0] != '_' ) or \\\n             isinstance( name, tuple ):\n            stack.append( obj )\n",
        count='first'),
+    _m('added-port-registered-by-set-union', COMP, "    top._dsl.all_named_objects.add( o )\n", "    top._dsl.all_named_objects |= { o }\n"),
+    _m('added-port-registered-first', COMP, "    top._dsl.all_signals.add( o )\n    top._dsl.all_named_objects.add( o )\n",
+       "    top._dsl.all_named_objects.update( [ o ] )\n    top._dsl.all_signals.add( o )\n"),
     _m('add-name-by-fstring', COMP, 'obj._dsl.full_name = ( parent._dsl.full_name + "." + u_name )',
        'obj._dsl.full_name = f"{parent._dsl.full_name}.{u_name}"'),
     _m('add-walk-bound-rearranged', COMP, "      while i < len(indices) - 1:", "      while i + 1 < len(indices):"),
